@@ -857,7 +857,7 @@ def run_check(ctx, pid):
             if quick:
                 gen_c02(ctx, sc, 25, 4, 4, 12)
             else:
-                gen_c02(ctx, sc, 250, 12, 6, 200)
+                gen_c02(ctx, sc, 500, 12, 6, 300)
         elif pid == "C20":
             if quick:
                 gen_c20(ctx, sc, 36, 30)
